@@ -461,7 +461,12 @@ static Result run_c20(const Case &c) {
     std::vector<uint8_t> data = expand_buffer(c, "data");
     Instance in(g);
     if (!in.ok()) { r.fail("create refused rc=" + std::to_string(in.desc)); return r; }
+    // the stripe may have been written with the historical CRC (documented compatibility switch); validity of a
+    // fragment at decode time does not depend on the switch
+    if (c.get("legacy_writer")) setenv("LIBERASURECODE_WRITE_LEGACY_CRC", "1", 1);
     Stripe s = encode(in.desc, g, data);
+    unsetenv("LIBERASURECODE_WRITE_LEGACY_CRC");
+    if (c.get("legacy_writer")) r.cls("legacy_written_stripe");
     if (s.rc != 0) { r.fail("encode failed"); return r; }
     int n = g.n(), t = ref::tolerance(g);
     std::vector<int> present = c.ints("present"), align = c.ints("align"), kind = c.ints("dmg_kind"), arg = c.ints("dmg_arg"), val = c.ints("dmg_val");
@@ -474,7 +479,11 @@ static Result run_c20(const Case &c) {
         int kd = i < kind.size() ? kind[i] : 0;
         int64_t a = i < arg.size() ? arg[i] : 0, v = i < val.size() ? val[i] : 0;
         size_t paylen = f.size() - HDR;
-        if (kd == 1 && paylen > 0) { size_t bit = (size_t)a % (paylen * 8); f[HDR + bit / 8] ^= (uint8_t)(1u << (bit % 8)); }
+        if (kd == 1 && paylen > 0) {
+            size_t bit = (size_t)a % (paylen * 8);
+            if (v % 3 == 0) bit = paylen * 8 - 1 - (size_t)a % std::min<size_t>(paylen * 8, 64);      // a third of the flips land in the last 8 payload bytes
+            f[HDR + bit / 8] ^= (uint8_t)(1u << (bit % 8));
+        }
         else if (kd == 1) kd = 0;
         if (kd == 2) {
             switch (a % 4) {
@@ -570,6 +579,7 @@ static Case gen_c20() {
     }
     c.setv("pre", pre);
     c.set("pre_heal", (!pre.empty() && coin(1, 4)) ? 1 : 0);
+    c.set("legacy_writer", coin(1, 3) ? 1 : 0);
     return c;
 }
 
